@@ -414,7 +414,7 @@ def main():
     # (C) CrossHair on the escaping function
     try:
         from hv import chx
-        chx.run_into(rep, 'c13', per_condition_timeout=30 if quick else 120)
+        chx.run_into(rep, 'c13', per_condition_timeout=200 if quick else 900)
     except ImportError:
         rep.cov['crosshair'] = 'CrossHair harness not available'
     rep.rule = ('payload templates: kind in {string local/global/argument/converted, const byte/int/bool arrays global and local, string arrays} x length %s x word size, contents symbolic; '
